@@ -33,6 +33,8 @@ type state struct {
 
 	localMacros map[string]*parse.MacroNode // Macros defined in the current template.
 
+	outside bool // Executing statements outside the blocks of an extending template.
+
 	env   *Env        // The configured Stick environment.
 	scope *scopeStack // Handles execution scope.
 }
@@ -298,6 +300,11 @@ func (s *state) walk(node parse.Node) error {
 		_, err = io.WriteString(s.out, CoerceString(v))
 		return err
 	case *parse.BlockNode:
+		if s.outside {
+			// A block under an "if" or "for" at the top level of an extending
+			// template is defined there, not rendered.
+			return nil
+		}
 		name := node.Name
 		if block := s.getBlock(name); block != nil {
 			if block.Origin != "" {
@@ -396,9 +403,9 @@ func (s *state) walkChild(node parse.Node) error {
 		// Control flow at the top level of an extending template is executed
 		// for its effects (assignments, calls, errors); whatever it would
 		// print is not rendered, like all content outside blocks.
-		out := s.out
-		s.out = ioutil.Discard
-		defer func() { s.out = out }()
+		out, outside := s.out, s.outside
+		s.out, s.outside = ioutil.Discard, true
+		defer func() { s.out, s.outside = out, outside }()
 		return s.walk(node)
 	default:
 		// No need to handle other nodes: text, prints and includes only
@@ -970,11 +977,11 @@ func (s *state) callMacro(macro macroDef, args ...Value) (Value, error) {
 			s.scope.setLocal(name, args[i])
 		}
 	}
-	defer func(buf io.Writer) {
-		s.out = buf
-	}(s.out)
+	defer func(buf io.Writer, outside bool) {
+		s.out, s.outside = buf, outside
+	}(s.out, s.outside)
 	buf := &bytes.Buffer{}
-	s.out = buf
+	s.out, s.outside = buf, false
 	if macro.Origin != "" {
 		defer func(name string) {
 			s.name = name
